@@ -526,10 +526,14 @@ leaps_before(struct dt_dt_s d)
 		break;
 	case DT_YMCW:
 	case DT_YWD:
-	case DT_YD: {
+	case DT_YD:
+	case DT_BIZDA:
+	case DT_LDN:
+	case DT_JDN:
+	case DT_MDN: {
 		/* ymcw words are not ordered chronologically and their
 		 * padding bits are not defined, there are no tables for
-		 * ywd and yd, go through ymd */
+		 * ywd, yd, bizda and the day numbers, go through ymd */
 		const dt_ymd_t tmp = dt_dconv(DT_YMD, d.d).ymd;
 		res = leaps_before_ui32(leaps_ymd, nleaps, tmp.u);
 		on = res + 1 < nleaps && leaps_ymd[res + 1] == tmp.u;
